@@ -926,7 +926,7 @@ def _iter_component(it: Term, path: tuple[int, ...], loopid) -> Term:
         return _iter_component(it[2][path[0]], path[1:], loopid)
     if fn == ("builtin", "reversed") and it[2]:
         return _project(("iter", it, loopid), path)
-    if it[0] == "comp" and it[1] in ("list", "gen", "set") and len(it[3]) == 1:
+    if it[0] == "comp" and it[1] in ("list", "gen", "set") and len(it[3]) >= 1:
         # `for a, b in [(x, y) for x, y in enumerate(L) if c]`: the loop variables are the components of the
         # element, i.e. values of the inner iteration (the filter `c` is a path condition, see util.path_condition)
         inner_ids = comp_loop_ids(it)
